@@ -21,7 +21,7 @@ def run(prop, tier, seed, replay):
     common.proof_coverage(v, st, prop, TB)
     v.coverage.update(dict(
         evaluations=res["evals"], distinct_nontrivial=res["distinct"],
-        rule="cases = (source tree, destination tree, exclude list, --delete, --jobs in {1,2,4,16}, --verbose, direction in {local, push, pull}) from one SplitMix64 stream plus the directed corpus: up to 6 source files at nesting <= 3 with names from a hostile alphabet (space, single and double quote, backslash, `$HOME`, `*`, `?`, `[..]`, newline, leading dash, non-ASCII, leading dot), contents from 0 B to 300 kB, source mtimes from {0, 1, 10^9 with fractions, 2^31-1, 2^31, 2^32+1} with sub-second parts, per-file destination state in {absent, same size+mtime with other bytes, other size, other mtime, identical}, up to 2 destination-only files, 0-2 exclude patterns. Per case the real binary runs a dry run, the real run and a second run; kind, exit status, plan lists, skipped count, sent/failed counters and the final destination tree (bytes + whole-second mtimes) of the dry and the real run are compared line by line with the extracted model. Independent oracles on the implementation (tag C04): source tree unchanged; exit 0 => every non-excluded source file that was absent or differed in size/mtime is at the destination with the source's bytes and mtime, quick-check matches untouched, --delete removed exactly the non-excluded destination-only files, nothing else created/modified/removed, no staging file left; a non-zero exit is reported. distinct_nontrivial = distinct cases whose plan has both a transfer and a skipped file.",
+        rule="cases = (source tree, destination tree, exclude list, --delete, --jobs in {1,2,4,16}, --verbose, direction in {local, push, pull}) from one SplitMix64 stream plus the directed corpus: up to 6 source files at nesting <= 3 with names from a hostile alphabet (space, single and double quote, backslash, `$HOME`, `*`, `?`, `[..]`, newline, leading dash, non-ASCII incl. one-character names, leading dot, leading/trailing space, trailing newline, tab), contents from 0 B to 300 kB, source mtimes from {0, 1, 10^9 with fractions, 2^31-1, 2^31, 2^32+1} with sub-second parts, per-file destination state in {absent, same size+mtime with other bytes, other size, other (older or newer) mtime with the same or with other bytes of the same size, identical}, up to 2 destination-only files, 0-2 exclude patterns (incl. `?.b`, `ün?`, `??`: `?` facing non-ASCII characters); the exclusion oracle is the independent wildcard definition of C15, not the implementation's matcher. Per case the real binary runs a dry run, the real run and a second run; kind, exit status, plan lists, skipped count, sent/failed counters and the final destination tree (bytes + whole-second mtimes) of the dry and the real run are compared line by line with the extracted model. Independent oracles on the implementation (tag C04): source tree unchanged; exit 0 => every non-excluded source file that was absent or differed in size/mtime is at the destination with the source's bytes and mtime, quick-check matches untouched, --delete removed exactly the non-excluded destination-only files, nothing else created/modified/removed, no staging file left; a non-zero exit is reported. distinct_nontrivial = distinct cases whose plan has both a transfer and a skipped file.",
         samples=[s_[:400] for s_ in res["samples"]] or ["(none)"], distribution=res["stats"], disagreements=res["dis"]))
     v.assumptions = TB
     return v.finish()
